@@ -89,7 +89,7 @@ def convert(v, dest_dtype):
 PROP = st.fixed_dictionaries({
     "where": st.sampled_from(["both", "both", "both", "src", "dest"]),
     "values": st.sampled_from(VALUE_MODES),
-    "unit": st.sampled_from(["none", "d", "s", "eq", "conflict", "eq", "none"]),
+    "unit": st.sampled_from(["none", "d", "s", "eq", "conflict", "eq", "none", "case"]),
     "unc": st.sampled_from(["none", "d", "s", "eq", "conflict", "none", "d0", "d0_conflict", "eq0"]),
     "definition": st.sampled_from(ATTR_MODES + ["none", "eq"]),
     "reference": st.sampled_from(ATTR_MODES + ["none"]),
@@ -99,7 +99,8 @@ PROP = st.fixed_dictionaries({
 
 def node_strategy(depth):
     base = {
-        "where": st.sampled_from(["both", "both", "both", "src", "dest", "both_difftype"]),
+        "where": st.sampled_from(["both", "both", "both", "src", "dest", "both_difftype", "both_casetype"]),
+        "twin_prop": st.booleans(),
         "definition": st.sampled_from(ATTR_MODES + ["none", "s"]),
         "reference": st.sampled_from(ATTR_MODES + ["none", "s"]),
         "props": st.lists(PROP, min_size=0, max_size=3),
@@ -125,7 +126,10 @@ def build_pair(root):
     def mk_prop(spec, idx, dsec, ssec, path, strict_conf):
         name = "p%d" % idx
         ddt, dvals, sdt, svals, ok = values_for(spec["values"])
-        u_d, u_s = attr_pair(spec["unit"], "mV")
+        if spec["unit"] == "case":
+            u_d, u_s = "mV", ["MV", "mv", "m V", " mV"][idx % 4]
+        else:
+            u_d, u_s = attr_pair(spec["unit"], "mV")
         unc_d, unc_s = {"none": (None, None), "d": (0.5, None), "s": (None, 0.5), "eq": (0.5, 0.5),
                         "conflict": (0.5, 0.75), "d0": (0.0, None), "d0_conflict": (0, 0.5),
                         "eq0": (0, 0.0)}[spec["unc"]]
@@ -144,7 +148,7 @@ def build_pair(root):
                 facts["unconvertible"].append(here)
             if ddt != sdt and dvals is not None and svals is not None:
                 facts["conflicts"].append((here, "dtype"))
-            if spec["unit"] == "conflict":
+            if spec["unit"] in ("conflict", "case"):
                 facts["conflicts"].append((here, "unit"))
             if spec["unc"] in ("conflict", "d0_conflict"):
                 facts["conflicts"].append((here, "uncertainty"))
@@ -165,13 +169,20 @@ def build_pair(root):
         d_def, s_def = attr_pair(node["definition"], "definition of " + name)
         d_ref, s_ref = attr_pair(node["reference"], "reference of " + name)
         dsec = ssec = None
-        if where in ("both", "dest", "both_difftype") and dpar is not None:
-            dsec = odml.Section(name=name, type="t", definition=d_def, reference=d_ref, parent=dpar)
-        if where in ("both", "src", "both_difftype") and spar is not None:
-            ssec = odml.Section(name=name, type="t" if where != "both_difftype" else "other",
-                                definition=s_def, reference=s_ref, parent=spar)
+        if where in ("both", "dest", "both_difftype", "both_casetype") and dpar is not None:
+            dsec = odml.Section(name=name, type="Type/T" if where == "both_casetype" else "t",
+                                definition=d_def, reference=d_ref, parent=dpar)
+            if node.get("twin_prop") and snap.kind(dpar) == "sec":
+                # a Property of the destination that carries the name of this Section
+                try:
+                    odml.Property(name=name, values=["twin"], parent=dpar)
+                except Exception:
+                    pass
+        if where in ("both", "src", "both_difftype", "both_casetype") and spar is not None:
+            stype = {"both_difftype": "other", "both_casetype": "type/t"}.get(where, "t")
+            ssec = odml.Section(name=name, type=stype, definition=s_def, reference=s_ref, parent=spar)
         if dsec is not None and ssec is not None:
-            if where == "both_difftype":
+            if where in ("both_difftype", "both_casetype"):
                 facts["difftype"].append(here)
             else:
                 facts["common"] += 1
@@ -181,7 +192,7 @@ def build_pair(root):
                     facts["conflicts"].append((here, "reference"))
                 if "ws" in (node["definition"], node["reference"]):
                     facts["ws_only"] += 1
-        merged_pair = dsec is not None and ssec is not None and where != "both_difftype"
+        merged_pair = dsec is not None and ssec is not None and where not in ("both_difftype", "both_casetype")
         for i, p in enumerate(node["props"]):
             if merged_pair:
                 mk_prop(p, i, dsec, ssec, here, None)
@@ -392,7 +403,7 @@ def body(case):
 # complete placement table on a fixed skeleton
 
 def skeleton_node(depth, fan=2):
-    node = {"where": "both", "definition": "eq", "reference": "s",
+    node = {"where": "both", "definition": "eq", "reference": "s", "twin_prop": True,
             "props": [{"where": "both", "values": "disjoint", "unit": "eq", "unc": "s", "definition": "s",
                        "reference": "eq", "value_origin": "s"},
                       {"where": "both", "values": "overlap", "unit": "s", "unc": "eq", "definition": "eq",
@@ -412,7 +423,8 @@ PLANTS = [("prop", "values", "unconvertible"), ("prop", "unit", "conflict"), ("p
           ("prop", "value_origin", "conflict"), ("prop", "values", "text_convertible"),
           ("prop", "values", "multiline"), ("prop", "values", "unconvertible_dest_empty"),
           ("prop", "unc", "d0_conflict"),
-          ("sec", "definition", "conflict"), ("sec", "reference", "conflict"), ("sec", "where", "both_difftype")]
+          ("sec", "definition", "conflict"), ("sec", "reference", "conflict"), ("sec", "where", "both_difftype"),
+          ("sec", "where", "both_casetype"), ("prop", "unit", "case")]
 
 
 def positions(node, path=()):
